@@ -282,7 +282,8 @@ EXTRA = {
     'C23': 'R23.5: Settings::basePaths is read in lib/ only as the argument of Path::getRelativePath (one implementation for finding and suppression file names). R23.6: the macro arm of '
            'Suppression::isSuppressed does not match on the file of the #define.',
     'C26': 'R26.6: the duplicate filter in front of the text / XML / SARIF writers does not depend on the output format (its dependence on --template is a known finding). R26.7: the '
-           'level and locations of a SARIF result are computed from the finding itself, not looked up by rule id.',
+           'level and locations of a SARIF result are computed from the finding itself, not looked up by rule id. R26.8: the SARIF result loop skips no finding (one known finding: findings '
+           'without a location).',
     'C27': 'R27.3: functions that select one ValueFlow::Value test the severity / certainty options only after the selection loop. R27.4: an option test passed as an argument to a '
            'data-returning function is used there only as a pure gate, never combined with data to steer a search. R27.5: no Check modifies its member state inside a branch controlled by '
            'a severity / certainty test (one known finding: diag() under --inconclusive in checkDuplicateExpression).',
